@@ -53,7 +53,8 @@ Catalogue ==
                    [A |-> {"a"},  B |-> {"b"}, C |-> {"c","c2"}], E({"A","B","C"})),
     shortcut |-> Wf({"A","B","C"},      \* C reads a file of A directly and one of B, which is made from A's
                    [A |-> {"s1"}, B |-> {"a"}, C |-> {"a","b"}],
-                   [A |-> {"a"},  B |-> {"b"}, C |-> {"c"}], E({"A","B","C"})),
+                   [A |-> {"a"},  B |-> {"b"}, C |-> {"c"}],
+                   [A |-> {}, B |-> {"a"}, C |-> {}]),      \* B "protects" its input: that binds nobody else
     pair    |-> Wf({"A","B"},
                    [A |-> {"s1"}, B |-> {"a"}],
                    [A |-> {"a"},  B |-> {"b"}], E({"A","B"})) ]
@@ -68,7 +69,8 @@ VARIABLES
   hsh,      \* [T -> version | NoRec]: the spec-hashes file
   useHash,  \* configuration: use_spec_hashes
   gp,       \* the gwf run in progress (pc = "idle" when none)
-  conv,     \* history: [ok, sel] - the last run ended cleanly and nothing disturbed the project since
+  conv,     \* history: [ok, sel] - the last run ended cleanly and nothing disturbed the project since; and
+            \* shelf: what is stored under the original name of a target that currently goes by another name
   cnt,      \* budgets used so far: [env, faults, cmds]
   hist      \* history of actions (for scenario generation; hidden by VIEW in design checks)
 
@@ -137,7 +139,7 @@ RunBegin(sel) ==
   /\ LET plan == ToSubmit(W3, fs, Hok, Snap, EffSel(sel)) IN
      gp' = [pc |-> "run", sel |-> sel, b |-> Snap, todo |-> plan, plan |-> plan,
             mtrk |-> trk, mhsh |-> hsh, hashing |-> useHash, fs0 |-> fs]
-  /\ conv' = [ok |-> LiveTargets = {}, sel |-> EffSel(sel)]
+  /\ conv' = [conv EXCEPT !.ok = (LiveTargets = {}), !.sel = EffSel(sel)]
   /\ UNCHANGED <<w, specv, fs, clock, jobs, trk, hsh, useHash>>
   /\ Bump("cmds") /\ Log("RunBegin", [sel |-> sel])
 
@@ -288,6 +290,29 @@ EditSpec(t) ==
   /\ UNCHANGED <<w, fs, clock, jobs, trk, hsh, useHash, gp>>
   /\ Log("EditSpec", [t |-> t])
 
+(* The user renames a target in the workflow file (or removes it and adds it again under another name). gwf keys *)
+(* everything by name: under its new name the target has never been submitted and has no recorded spec; what is  *)
+(* stored under the old name is no longer anybody's (the old job, if alive, goes on in the scheduler).           *)
+Rename(t) ==
+  /\ EnvOK /\ Idle /\ ~conv.shelf[t].away
+  /\ trk' = [trk EXCEPT ![t] = NoJob]
+  /\ hsh' = [hsh EXCEPT ![t] = NoRec]
+  /\ conv' = [conv EXCEPT !.ok = FALSE, !.shelf[t] = [away |-> TRUE, trk |-> trk[t], hsh |-> hsh[t]]]
+  /\ Bump("env")
+  /\ UNCHANGED <<w, specv, fs, clock, jobs, useHash, gp>>
+  /\ Log("Rename", [t |-> t])
+
+(* ... and gives it its original name back (a target commented out for a while, a generated name that came and  *)
+(* went): what was stored under that name is the target's again, untouched by everything done in between       *)
+RenameBack(t) ==
+  /\ EnvOK /\ Idle /\ conv.shelf[t].away
+  /\ trk' = [trk EXCEPT ![t] = conv.shelf[t].trk]
+  /\ hsh' = [hsh EXCEPT ![t] = conv.shelf[t].hsh]
+  /\ conv' = [conv EXCEPT !.ok = FALSE, !.shelf[t].away = FALSE]
+  /\ Bump("env")
+  /\ UNCHANGED <<w, specv, fs, clock, jobs, useHash, gp>>
+  /\ Log("RenameBack", [t |-> t])
+
 SetUseHash(v) ==
   /\ EnvOK /\ Idle /\ v # useHash
   /\ useHash' = v
@@ -378,7 +403,7 @@ Init ==
   /\ useHash \in BOOLEAN
   /\ gp = [pc |-> "idle", sel |-> {}, b |-> [t \in w.T |-> "U"], todo |-> {}, plan |-> {},
            mtrk |-> [t \in w.T |-> NoJob], mhsh |-> [t \in w.T |-> NoRec], hashing |-> FALSE, fs0 |-> [f \in AllIn(w) \cup AllOut(w) |-> Missing]]
-  /\ conv = [ok |-> FALSE, sel |-> {}]
+  /\ conv = [ok |-> FALSE, sel |-> {}, shelf |-> [t \in w.T |-> [away |-> FALSE, trk |-> NoJob, hsh |-> NoRec]]]
   /\ cnt = [env |-> 0, faults |-> 0, cmds |-> 0]
   /\ hist = << >>
 
@@ -402,6 +427,7 @@ GwfNext ==
 EnvNext ==
   \/ \E f \in Files : (On("EditSource") /\ EditSource(f)) \/ (On("DeleteOutput") /\ DeleteOutput(f))
   \/ On("EditSpec") /\ \E t \in T : EditSpec(t)
+  \/ On("Rename") /\ \E t \in T : (Rename(t) /\ (On("UsefulRename") => useHash /\ hsh[t] # NoRec)) \/ RenameBack(t)
   \/ On("SetUseHash") /\ \E v \in BOOLEAN : SetUseHash(v)
 SchedNext ==
   \E j \in JobIds : JobStart(j) \/ (On("Purge") /\ Purge(j)) \/ JobEnd(j, TRUE, FALSE)
